@@ -81,7 +81,7 @@ def fmtPoint : Point → String
   | none => "inf"
   | some (x, y) => natToHex x ++ "," ++ natToHex y
 
-def handle (e : Env) (w : Nat) (op : String) (args : List String) (got : String) : Option Verdict :=
+partial def handle (e : Env) (w : Nat) (op : String) (args : List String) (got : String) : Option Verdict :=
   let c := e.c
   let cls := fun (s : String) => some ({ model := s, spec := [s] } : Verdict)
   let pI := fun (s : String) => (parseBn w s).map (Relic.Model.Bn.toInt (2 ^ w))
@@ -144,6 +144,8 @@ def handle (e : Env) (w : Nat) (op : String) (args : List String) (got : String)
     let m ← pI m
     let p := if v == "gen" then e.g else p0
     cls (fmtPoint (add c (mul c p k) (mul c q m)))
+  | "epla", _ :: rest => handle e w "epl" rest got
+  | "epda", _ :: rest => handle e w "epd" rest got
   | "epl", n :: rest => do
     let n ← n.toNat?
     let rec go (i : Nat) (l : List String) (acc : Point) : Option Point :=
